@@ -74,6 +74,7 @@ def expr(e, env):
 
 def function(fn, ret_tuple):
     args = [a.arg for a in fn.args.args]
+    if fn.decorator_list: reject(fn, "decorated function (a decorator may change what the call returns)")
     if fn.args.vararg or fn.args.kwarg or fn.args.kwonlyargs or fn.args.defaults:
         reject(fn, "only plain positional arguments accepted")
     env = {a: INT for a in args}
@@ -103,6 +104,7 @@ def function(fn, ret_tuple):
     return text
 
 def msb(fn):
+    if fn.decorator_list: reject(fn, "decorated function")
     """_most_significant_set_bit: bin_string = bin(val); return len(bin_string) - 2"""
     body = strip_docstring(fn.body)
     src = [ast.unparse(s) for s in body]
